@@ -241,6 +241,53 @@ def check_err12(ctx, f: FuncInfo, rule1: str, rule1v: str, rule2: str) -> None:
                         report(sid, "v", node,
                                f"`{vn}` is used at line {node.lineno} while the error `{en}` of the same call is still untested")
 
+    # -- tested, found set, and then dropped -------------------------------------------
+    # ``armed`` = the error is known to be set (the not-None edge of a None-test was taken) and has not been consumed
+    # by anything but tests since.  Reaching a normal exit armed, on a path that produces no error of its own, means
+    # the run continues as if nothing had happened.
+    def transfer_u(node: Node, state):
+        armed = set(state)
+        st = stores(node)
+        ld = _loads_with_closures(node, closure)
+        for sid in list(armed):
+            _, vn, en, _, _ = site_by_id[sid]
+            if en in st:
+                armed.discard(sid)
+            elif en in ld and node.kind != "test":
+                armed.discard(sid)
+            elif node.kind != "test" and _produces_error(node):
+                armed.discard(sid)  # the path reports an error of its own
+        return [frozenset(armed)]
+
+    def edge_u(node: Node, state, label):
+        if node.kind == "test" and node.expr is not None and label in (True, False) and not isinstance(node.owner, ast.Assert):
+            add = set()
+            for sid, (_, vn, en, _, _) in site_by_id.items():
+                if en is None or en == "_":
+                    continue
+                pol = _none_test_polarity(node.expr, en)
+                if pol is None:
+                    continue
+                if label == pol:  # the edge on which ``en`` is not None
+                    add.add(sid)
+            if add:
+                return frozenset(set(state) | add)
+        return state
+
+    INU = set_dataflow(cfg, frozenset([frozenset()]), transfer_u, edge_u)
+    for node in cfg.nodes:
+        if node.id not in INU or node.kind not in ("return", "end"):
+            continue
+        ld0 = _loads_with_closures(node, closure)
+        for state in INU[node.id]:
+            for sid in state:
+                snode, vn, en, call, shape = site_by_id[sid]
+                if en in ld0 or _produces_error(node):
+                    continue
+                where = f"the return at line {node.lineno}" if node.kind == "return" else "the end of the function"
+                report(sid, "dropped", node,
+                       f"the error `{en}` returned by `{short(call.func)}` is tested and found set, but on a path to {where} it is neither handed on nor replaced by another error: the failure is swallowed")
+
     for sid, (node, vn, en, call, shape) in site_by_id.items():
         if en is None:
             tgt = node.stmt.targets[0] if isinstance(node.stmt, ast.Assign) else None
@@ -250,6 +297,23 @@ def check_err12(ctx, f: FuncInfo, rule1: str, rule1v: str, rule2: str) -> None:
             ctx.ok(rule1, f, node.stmt)
         if vn is not None and (sid, "v") not in reported:
             ctx.ok(rule1v, f, node.stmt, nontrivial=True)
+
+
+def _produces_error(node: Node) -> bool:
+    """The node constructs or records an error of its own (Error(...), errors.append/extend, a non-zero return code,
+    write_error_report)."""
+    for e in node_exprs(node):
+        for n in ast.walk(e):
+            if isinstance(n, ast.Call):
+                d = dotted_of(n.func) or ""
+                tail = d.split(".")[-1]
+                if tail in ("Error", "write_error_report") or d.endswith("errors.append") or d.endswith("errors.extend") or tail in ("append", "extend") and "error" in d.lower():
+                    return True
+    if node.kind == "return" and isinstance(node.expr, ast.Constant) and isinstance(node.expr.value, int) and not isinstance(node.expr.value, bool) and node.expr.value != 0:
+        return True
+    if node.kind == "return" and isinstance(node.expr, ast.Tuple) and len(node.expr.elts) >= 2 and not (isinstance(node.expr.elts[-1], ast.Constant) and node.expr.elts[-1].value is None):
+        return True  # returns something in the error slot
+    return False
 
 
 def _receiver_name(call: ast.Call) -> Optional[str]:
